@@ -76,8 +76,8 @@ CLAIMED = {
    note="Part of C37: the lexer only; parser and checker totality/positions are outside (a symbolic AST is out of reach). Bounds: <=2 (3) free bytes per harness, prefixes listed in harness/C37/lexer.go; sync.Pool modelled as 'Get returns the last Put object, else New()'; unicode/utf8.DecodeRune runs from source. Two known findings (unterminated block comment content in no token; column drift after an empty string token), three defects fixed.",
    design="3 C37"),
  "C44": dict(
-   text="Storage codec kernel: for every scalar storable value - the 14 fixed-width integer/Word/fixed-point kinds, Fix128/UFix128, Bool, Address, Nil (full width), Int/UInt (|x|<2^128), Int128/UInt128/Word128 (256-bit kinds in thorough), ASCII strings <=3 bytes, paths with identifiers <=2 bytes - the real Storable.Encode (through atree.Encoder and fxamacker/cbor's stream encoder executed from source) followed by the real interpreter.DecodeStorable yields a storable of the same kind and content, and re-encoding the decoded storable gives identical bytes; every primitive static type number and optional / variable- and constant-sized array / dictionary / reference / capability static types over symbolic primitive element types round-trip through StaticTypeToBytes / StaticTypeFromBytes to an equal type with identical re-encoding.",
-   note="Part of C44: containers and composites (atree slabs), capability / type / published values, composite, interface and intersection static types, entitlement authorizations, non-ASCII strings (x/text NFC tables) and cross-version stability (needs a stored corpus of old encodings) are outside.",
+   text="Storage codec kernel: for every scalar storable value - the 14 fixed-width integer/Word/fixed-point kinds, Fix128/UFix128, Bool, Address, Nil (full width), Int/UInt (|x|<2^128), Int128/UInt128/Word128 (256-bit kinds in thorough), ASCII strings <=3 bytes, paths with identifiers <=2 bytes, Some / Some(Some) of an Int16, type values over primitive and optional static types, ID capabilities (symbolic id, address, borrow type) - the real Storable.Encode (through atree.Encoder and fxamacker/cbor's stream encoder executed from source) followed by the real interpreter.DecodeStorable yields a storable of the same kind and content, and re-encoding the decoded storable gives identical bytes; every primitive static type number and optional / variable- and constant-sized array / dictionary / reference / capability static types over symbolic primitive element types round-trip through StaticTypeToBytes / StaticTypeFromBytes to an equal type with identical re-encoding.",
+   note="Part of C44: containers and composites (atree slabs), published values and capability controllers, composite, interface and intersection static types, entitlement authorizations, non-ASCII strings (x/text NFC tables) and cross-version stability (needs a stored corpus of old encodings) are outside.",
    design="3 C44"),
  "C46": dict(
    text="Bounded symbolic model checking of the real rlp.ReadSize/DecodeString/DecodeList SSA: for every input of the stated lengths (all byte values, incl. 8-byte length prefixes up to 2^64-1) an SMT solver shows no run-time panic is reachable and acceptance/result equal an independent reference decoder; every feasible path is also replayed natively.",
